@@ -29,7 +29,7 @@ EXPLANATION = (
 )
 
 
-def run(ctx, ck) -> None:
+def _pixel2index_structural(ctx, ck) -> None:
     world, table = ctx.world, ctx.table
     sl = table.get(f'{LAND}.StokesLandscape')
     p2i = sl.own.get('pixel2index')
@@ -178,6 +178,185 @@ def run(ctx, ck) -> None:
     ck.expect('P5', ok, p2i, 'int32 indices unless the largest index exceeds the int32 range, then int64 (sizes around the boundary enumerated)',
               f'the index dtype is no longer chosen from the size of the map: {why5}', instance='index dtype')
 
+
+
+def _flat_index(ctx, ck, sl) -> bool:
+    """P7: pixel2index, however it is written, computes sum_k round(c_k) * prod_{j<k} n_j under the mask
+    AND_k (0 <= round(c_k) < n_k): it is evaluated symbolically (sa/axinterp.py) on maps of rank 1-3 with distinct prime
+    sizes and opaque coordinates; the index must be that linear form in the rounded coordinates, the mask exactly those 2k
+    atoms on the rounded coordinates themselves (a mask on a partial flat index is computed in fixed width and can wrap), the
+    result where(mask, index, -1).  Returns True when decided."""
+    from ..axinterp import Interp, Obj, Opaque, Raised, Ref, Sym, Undecided, UNK
+
+    world, table = ctx.world, ctx.table
+    r = table.resolve(sl, 'pixel2index')
+    if r is None or not isinstance(r.node, ast.FunctionDef):
+        raise AnalysisError('anchor vanished: StokesLandscape.pixel2index')
+    fn = r.node
+    problems: list[str] = []
+    undecided: list[str] = []
+
+    def strip(x):
+        # casts and conversions of an integer-valued array do not change its value
+        while isinstance(x, Sym):
+            if x.op == 'call' and isinstance(x.args[0], Sym) and x.args[0].op == '.astype':
+                x = x.args[0].args[0]
+            elif x.op in ('jnp.asarray', 'jnp.array', 'jnp.int32', 'jnp.int64') and x.args:
+                x = x.args[0]
+            else:
+                break
+        return x
+
+    def rounded(x):
+        x = strip(x)
+        if isinstance(x, Sym) and x.op in ('jnp.round', 'jnp.around') and len(x.args) == 1 and isinstance(strip(x.args[0]), Opaque):
+            return strip(x.args[0]).name
+        if isinstance(x, Sym) and x.op in ('jnp.rint', 'jnp.floor', 'jnp.ceil', 'jnp.trunc', 'jnp.fix') and len(x.args) == 1 and isinstance(strip(x.args[0]), Opaque):
+            # rint converts integer coordinates to the default float type first (pixels above 2**24 are moved); floor / ceil /
+            # trunc shift the pixel boundaries by half a pixel
+            problems.append(f'a coordinate goes through {x.op} instead of jnp.round (integer coordinates are converted to floating point first, or the pixel boundaries move by half a pixel)')
+            return strip(x.args[0]).name
+        return None
+
+    def linear(x):
+        """{coordinate name or 1: integer coefficient} or None."""
+        x = strip(x)
+        if isinstance(x, int) and not isinstance(x, bool):
+            return {1: x} if x else {}
+        if type(x).__name__ == 'AxArr' and not any(l for l, _ in x.axes):
+            return {}  # jnp.zeros(...): the starting value of an accumulation
+        name = rounded(x)
+        if name is not None:
+            return {name: 1}
+        if isinstance(x, Sym) and x.op in ('+', '-') and len(x.args) == 2:
+            a, b = linear(x.args[0]), linear(x.args[1])
+            if a is None or b is None:
+                return None
+            out = dict(a)
+            for k_, v_ in b.items():
+                out[k_] = out.get(k_, 0) + (v_ if x.op == '+' else -v_)
+            return {k_: v_ for k_, v_ in out.items() if v_}
+        if isinstance(x, Sym) and x.op == '*' and len(x.args) == 2:
+            a, b = linear(x.args[0]), linear(x.args[1])
+            if a is None or b is None:
+                return None
+            for u, v in ((a, b), (b, a)):
+                if set(u) <= {1}:
+                    c = u.get(1, 0)
+                    return {k_: v_ * c for k_, v_ in v.items() if v_ * c}
+            return None
+        return None
+
+    def atoms(x, out):
+        x = strip(x)
+        if isinstance(x, Sym) and x.op == '&' and len(x.args) == 2:
+            return atoms(x.args[0], out) and atoms(x.args[1], out)
+        if isinstance(x, Sym) and x.op in ('jnp.logical_and',) and len(x.args) == 2:
+            return atoms(x.args[0], out) and atoms(x.args[1], out)
+        if x is True:
+            return True
+        if isinstance(x, Sym) and x.op in ('jnp.array', 'jnp.asarray', 'jnp.ones') and x.args and x.args[0] is True:
+            return True
+        if isinstance(x, Sym) and x.op in ('<', '<=', '>', '>=') and len(x.args) == 2:
+            a, b = x.args
+            op = x.op
+            if op in ('>', '>='):
+                a, b, op = b, a, '<' if op == '>' else '<='
+            la, lb = linear(a), linear(b)
+            if la is None or lb is None:
+                return False
+            out.add((op, tuple(sorted(la.items(), key=str)), tuple(sorted(lb.items(), key=str))))
+            return True
+        return False
+
+    for shape in ((7,), (5, 7), (3, 5, 7)):
+        pixel_shape = shape[::-1]
+        m = len(shape)
+        it = Interp(world, table, budget=100_000)
+        it.symbolic = True
+        me = Obj(sl, {'shape': shape, 'pixel_shape': pixel_shape, 'stokes': 'IQU', 'dtype': Ref('numpy.float64')})
+        coords = [Opaque(f'c{k}') for k in range(m)]
+        try:
+            res = it.call_method(me, 'pixel2index', *coords)
+        except Raised as exc:
+            problems.append(f'pixel2index raises {exc.name} for a map of shape {shape} and {m} coordinates')
+            continue
+        except Undecided as exc:
+            undecided.append(f'shape {shape}: {exc}')
+            continue
+        res = strip(res)
+        if res is UNK or not isinstance(res, Sym):
+            undecided.append(f'shape {shape}: the result cannot be followed ({it.degraded[:1]})')
+            continue
+        if not (res.op == 'jnp.where' and len(res.args) == 3):
+            undecided.append(f'shape {shape}: the result is {res!r:.120}, not where(mask, index, -1)')
+            continue
+        mask, index, other = res.args
+        if other != -1:
+            problems.append(f'the value for pixels outside the map is {other!r}, not -1')
+        lin = linear(index)
+        want = {}
+        stride = 1
+        for k in range(m):
+            want[f'c{k}'] = stride
+            stride *= pixel_shape[k]
+        if lin is None:
+            undecided.append(f'shape {shape}: the index {index!r:.160} is not a linear form in the rounded coordinates')
+            continue
+        if lin != want:
+            problems.append(f'for a map of shape {shape} the flat index is {" + ".join(f"{v}*round({k})" for k, v in sorted(lin.items(), key=str))}, expected '
+                            f'{" + ".join(f"{v}*round({k})" for k, v in sorted(want.items()))} (first coordinate fastest, strides the products of the preceding pixel_shape entries)')
+        got_atoms: set = set()
+        if not atoms(mask, got_atoms):
+            undecided.append(f'shape {shape}: the mask {mask!r:.160} is not a conjunction of bounds on linear forms')
+            continue
+        want_atoms = set()
+        for k in range(m):
+            want_atoms.add(('<=', (), ((f'c{k}', 1),)))
+            want_atoms.add(('<', ((f'c{k}', 1),), ((1, pixel_shape[k]),)))
+        # equivalent spellings of the lower bound: -1 < i
+        norm = set()
+        for op, a, b in got_atoms:
+            if op == '<' and a == ((1, -1),):
+                op, a = '<=', ()
+            if op == '<=' and a == ((1, 0),):
+                a = ()
+            norm.add((op, a, b))
+        if norm != want_atoms:
+            missing = want_atoms - norm
+            extra = norm - want_atoms
+            problems.append(f'for a map of shape {shape} the validity mask ' + (f'lacks {sorted(missing, key=str)[:2]}' if missing else '') + (' and ' if missing and extra else '')
+                            + (f'tests {sorted(extra, key=str)[:2]} instead of the bounds of each rounded coordinate (a bound on a partial flat index is evaluated in fixed width and can wrap around)' if extra else ''))
+    if undecided:
+        ck.incomplete('P7', fn, f'pixel2index could not be evaluated symbolically: {undecided[0]}', instance='flat index formula')
+        return False
+    ck.expect('P7', not problems, fn, 'for maps of rank 1-3: index = sum_k round(c_k) * prod_{j<k} pixel_shape[j], mask = AND_k (0 <= round(c_k) < pixel_shape[k]), result where(mask, index, -1)',
+              f'pixel2index: {problems[0] if problems else ""}', instance='flat index formula')
+    return True
+
+
+def run(ctx, ck) -> None:
+    world, table = ctx.world, ctx.table
+    sl = table.get(f'{LAND}.StokesLandscape')
+    decided = _flat_index(ctx, ck, sl)
+    before = len(ck.obs)
+    _pixel2index_structural(ctx, ck)
+    if decided:
+        # the structural clauses on the way pixel2index is written (P1 masks, P2 recurrence) describe one form of it; where
+        # they cannot follow the code, or disagree with the symbolic evaluation above, P7 stands
+        kept = []
+        for i, o in enumerate(ck.obs):
+            if i >= before and o.rule.endswith(('P1', 'P2')) and o.status != 'ok':
+                ck.note(f'{o.rule} [{o.construct}] not decided structurally ({o.status}: {o.how[:100]}); superseded by P7')
+                continue
+            kept.append(o)
+        ck.obs[:] = kept
+    _rest(ctx, ck)
+
+
+def _rest(ctx, ck) -> None:
+    world, table = ctx.world, ctx.table
+    sl = table.get(f'{LAND}.StokesLandscape')
     # ------------------------------------------------------------------ P3
     hp = table.get(f'{LAND}.HealpixLandscape')
     w2p = hp.own.get('world2pixel')
@@ -324,8 +503,8 @@ def _range_mask(t, i, dim) -> bool:
 
 def controls(world: World) -> list[Control]:
     return [
-        Control('lower-bound-dropped', lambda w: edit_def(w, LAND, 'StokesLandscape.pixel2index', lambda fn: replace_stmt(fn, 'valid &= (0 <= indices_axis) & (indices_axis < dim)', 'valid &= indices_axis < dim')), 'C17.P1'),
-        Control('stride-before-accumulate', lambda w: edit_def(w, LAND, 'StokesLandscape.pixel2index', _swap_recurrence), 'C17.P2'),
+        Control('lower-bound-dropped', lambda w: edit_def(w, LAND, 'StokesLandscape.pixel2index', lambda fn: replace_stmt(fn, 'valid &= (0 <= indices_axis) & (indices_axis < dim)', 'valid &= indices_axis < dim')), 'C17.P7'),
+        Control('stride-before-accumulate', lambda w: edit_def(w, LAND, 'StokesLandscape.pixel2index', _swap_recurrence), 'C17.P7'),
         Control('nested-ordering', lambda w: edit_def(w, LAND, 'HealpixLandscape.world2pixel', lambda fn: replace_expr(fn, 'jhp.ang2pix(self.nside, theta, phi)', 'jhp.ang2pix(self.nside, theta, phi, nest=True)')), 'C17.P3'),
         Control('coverage-set', lambda w: edit_def(w, LAND, 'StokesLandscape.get_coverage', lambda fn: replace_expr(fn, 'coverage.at[unique_indices].add(counts, indices_are_sorted=True, unique_indices=True)', 'coverage.at[unique_indices].set(counts, indices_are_sorted=True, unique_indices=True)')), 'C17.P4'),
     ]
